@@ -1,19 +1,25 @@
 """C16 - flipping image parity reverses rows but moves no pixel on the sky.
 
 Spec: spec/Parity.tla - the object under flip_parity / ensure_negative_parity calls as a state machine over exact
-integers (CDELT, PC, doubled CRPIX, row order), the original kept as a history variable.  TLC enumerates
+integers (CDELT, PC, doubled CRPIX, the array representation and the PIL representation of the pixel rows), the original
+kept as a history variable.  Kinds: array-backed Image, PIL-backed Image (asarray() fills a cache: the Touch action =
+any asarray()/dtype call before the parity operation), data-less ImageDescription.  TLC enumerates
 kind x width x height x header (CDELT, PC) x CRPIX1 x CRPIX2 (inside, half-pixel, outside the image), explores the
-two operations from every case and checks SkyUnchanged / SamePicture / SignTracksRows in every state and the action
-properties FlipOK (sign and determinant negated, rows reversed, World(x, y) = World'(x, h-1-y) on the pixel lattice
-and a ring around it, involution) and EnsureOK (yields -1, idempotent, no-op on negative parity).  Every initial
-state emits the predicted header values, signs, row orders and per-pixel world tables after flip / flip.flip /
-ensure / ensure.ensure.
+operations from every case and checks SkyUnchanged / SamePicture / SignTracksRows / ViewsAgree (asarray() and aspil()
+never disagree) in every state and the action properties FlipOK (sign and determinant negated, rows reversed in both
+views, World(x, y) = World'(x, h-1-y) on the pixel lattice and a ring around it, involution), EnsureOK (yields -1,
+idempotent, no-op on negative parity) and TouchInvisible (filling the array cache changes neither the views nor the
+outcome of any later flip / ensure).  Every initial state emits the predicted header values, signs, row orders of both
+views and per-pixel world tables after flip / flip.flip / ensure / ensure.ensure.
 
 Binding (spec -> code): every emitted case is built as a real astropy WCS (CD or PC+CDELT form, scaled by 1e-3 deg;
-three CRVALs incl. RA wrap and near the pole) and a real toasty Image (F32 or RGB data) or ImageDescription; the real
-flip_parity, flip_parity again, ensure_negative_parity twice are run and compared with the prediction: parity signs,
-row order of the data, wcs_pix2world before at (x, y) against after at (x, h-1-y) for every pixel (1e-9 deg on the
-sphere), the linear stage (imgcrd) against TLC's world table, header CD / CRPIX (drift only).
+three CRVALs incl. RA wrap and near the pole) and a real toasty object: Image.from_array (F32, RGB), ImageDescription,
+or a PIL-backed Image (Image.from_pil of an RGB / RGBA bitmap, ImageLoader.load_pil of an 'L' bitmap, ImageLoader.load_path
+of a png file; WCS attached as toasty's cli does) after one of the pre-call histories nothing / asarray() / dtype /
+aspil() / shape.  The real flip_parity, flip_parity again, ensure_negative_parity twice are run and compared with the
+prediction: parity signs, row order read through asarray() AND through aspil(), wcs_pix2world before at (x, y) against
+after at (x, h-1-y) for every pixel (1e-9 deg on the sphere), the linear stage (imgcrd) against TLC's world table,
+header CD / CRPIX (drift only).
 """
 import itertools
 import math
@@ -351,13 +357,15 @@ def run(ctx):
     import multiprocessing as mp
     ctx.rule = ("cases = kind x width x height x header(CDELT, PC) x CRPIX1 x CRPIX2 enumerated by TLC from constant sets handed over by "
                 "the harness (headers: all 48 non-singular matrices over {-1,0,1} in CD and in PC+CDELT form, exact rotations in both parities with isotropic / "
-                "anisotropic / RA-reversed scales, skews, seeded integer matrices); every case is replayed: flip, flip, and on a fresh "
-                "object ensure, ensure. distinct = distinct case; every case is non-trivial (non-singular WCS, >= 1 pixel)")
+                "anisotropic / RA-reversed scales, skews, seeded integer matrices; kinds: array-backed Image, ImageDescription, and - on every 4th "
+                "header - PIL-backed Image in 4 backings x 5 pre-call histories); every case is replayed: flip, flip, and on a fresh "
+                "object ensure, ensure; data read back through asarray() and aspil(). distinct = distinct case; every case is "
+                "non-trivial (non-singular WCS, >= 1 pixel)")
     if ctx.quick:
-        hdrs = headers(ctx.rng, 10, every_pc_form=2)
+        hdrs = headers(ctx.rng, 8, every_pc_form=2)
         widths, heights = [1, 3], [1, 2, 5]
         refx = [3]
-        refy = [(2, 0), (1, 1), (-3, 0), (5, 2)]
+        refy = [(2, 0), (-3, 0), (5, 2)]
     else:
         hdrs = headers(ctx.rng, 200)
         widths, heights = [1, 4], [1, 2, 3, 6]
